@@ -186,6 +186,57 @@ func init() {
 		// errors
 		"errors.Is": extErrorsIs,
 
+		// sync.Map as an engine map (sequential semantics with a schedule point)
+		"(*sync.Map).Load": func(fr *frame, a []value) value {
+			fr.i.syncPoint("sync.Map")
+			v, ok := fr.i.mapLookup(fr.i.syncMap(a[0].(*value)), a[1], nil)
+			if okb, isB := ok.(bool); isB {
+				if !okb {
+					return tuple{iface{}, false}
+				}
+				return tuple{v, true}
+			}
+			if fr.i.decide(ok) {
+				return tuple{v, true}
+			}
+			return tuple{iface{}, false}
+		},
+		"(*sync.Map).Store": func(fr *frame, a []value) value {
+			fr.i.syncPoint("sync.Map")
+			fr.i.mapUpdate(fr.i.syncMap(a[0].(*value)), a[1], a[2])
+			return nil
+		},
+		"(*sync.Map).LoadOrStore": func(fr *frame, a []value) value {
+			i := fr.i
+			i.syncPoint("sync.Map")
+			m := i.syncMap(a[0].(*value))
+			v, ok := i.mapLookup(m, a[1], nil)
+			if i.decide(ok) {
+				return tuple{v, true}
+			}
+			i.mapUpdate(m, a[1], a[2])
+			return tuple{a[2], false}
+		},
+		"(*sync.Map).Delete": func(fr *frame, a []value) value {
+			fr.i.syncPoint("sync.Map")
+			fr.i.mapDelete(fr.i.syncMap(a[0].(*value)), a[1])
+			return nil
+		},
+		"(*sync.Map).Range": func(fr *frame, a []value) value {
+			i := fr.i
+			it := i.newMapIter(i.syncMap(a[0].(*value)))
+			for {
+				t := it.next()
+				if !t[0].(bool) {
+					break
+				}
+				if !i.decide(call(i, fr, 0, a[1], []value{t[1], t[2]})) {
+					break
+				}
+			}
+			return nil
+		},
+
 		// only used to size (un)marshalling headers in package initialisers
 		"encoding/binary.Size": func(fr *frame, a []value) value { return 8 },
 	} {
@@ -196,6 +247,19 @@ func init() {
 }
 
 func extNop(fr *frame, args []value) value { return nil }
+
+// syncMap returns the engine map standing for the sync.Map at address p.
+func (i *interpreter) syncMap(p *value) *omap {
+	if i.syncMaps == nil {
+		i.syncMaps = map[*value]*omap{}
+	}
+	m := i.syncMaps[p]
+	if m == nil {
+		m = newOmap(nil, nil)
+		i.syncMaps[p] = m
+	}
+	return m
+}
 
 func extExit1(fr *frame, args []value) value {
 	panic(pathAbort{kind: abExit, code: 1, msg: "log.Fatal"})
